@@ -3,7 +3,7 @@ from . import core, parsecheck
 from .core import log
 
 RULE = ("inputs = corpus (incl. the 10 non-UTF-8 files) + seeded corpus mutants + TLC-generated texts (every spelling, layouts, "
-        "decor, single-symbol mutations and truncations) + TomlDoc behaviours + damaged UTF-8 encodings (truncated sequences, "
+        "decor, single-symbol mutations and truncations) + TomlDoc behaviours + the date-time edge strings of MCDateGen (every field at and beyond its edge, 0-12 fraction digits) as document values + damaged UTF-8 encodings (truncated sequences, "
         "overlongs, surrogates, bytes >= 0xF5) + nesting patterns around the recursion limit; every input goes to every entry "
         "point (DocumentMut, ImDocument, Value, Item, Key, Key::parse, toml::from_str into Table/Value/a derived type, "
         "toml_edit::de::from_str/from_slice, both ValueDeserializers, Datetime::from_str) followed by to_string, Debug, clone, "
@@ -49,7 +49,7 @@ def run_entry(ctx, h, tag, path, budget_ms=10000, bytes_mod=10):
 
 def run(ctx):
     h = ctx.build(features=("preserve_order",))
-    ins = parsecheck.inputs(ctx, h, {"corpus", "mutants", "gen", "doc"})
+    ins = parsecheck.inputs(ctx, h, {"corpus", "mutants", "gen", "doc", "dates"})
     # nesting patterns around the recursion limit (Depth.tla), instantiated at the measured limit
     from . import c05
     r = ctx.tlc("Depth", c05.CFG % ("additive", "INVARIANT Bounded\nINVARIANT Emit"), tag="depth-additive", workers=4)
